@@ -48,6 +48,9 @@ CHECKS = {
     "C12": ("linearizability checking of recorded histories with porcupine (stack and deque models) + conservation monitor, CAS windows widened by failpoint-style delays",
             "Thousands of short concurrent histories per run are checked against sequential models; large runs check that no element is lost or duplicated.",
             "porcupine v1.3.0 trusted; timeouts are inconclusive; histories are short (NP-complete checking).", "4/C12"),
+    "C13": ("Go race detector (-race build of harness + library) over generated client programs per concurrency-safe type, the behavioural workloads of the other properties and the pinned test suite; reports parsed from GORACE logs and de-duplicated by accessing-function pair",
+            "Client programs call every documented method from 2-8 goroutines with schedule-point perturbation that touches no shared memory; the method-overlap matrix is measured from per-goroutine monotonic-clock logs after the join.",
+            "Only executed accesses are seen; a report with both accesses in harness code is reported as a harness defect.", "4/C13"),
     "C14": ("sequential reference-machine monitor: per-call required/forbidden re-runs judged at settled states, post-hoc cause check for every re-run, WaitExited and exit-callback oracles, recording backoff",
             "Histories of 14-64 calls with scripted outcomes; some calls are issued inside the backoff interval (unsettled) and judged only by the cause rule; one recorded known finding (success lost when the context changes between return and bookkeeping).",
             "Retry timers: 1 ms backoff, 'surely fired' = 30 periods + quiescence, repeated until the instance count is stable.", "4/C14"),
